@@ -54,6 +54,16 @@ class C14Holder(_ASTNode):
     hnote: str = _dc.field(default="", compare=False, hash=True)     # non-comparable (what `hash=` says is irrelevant)
 
 
+@_dc.dataclass(frozen=True)
+class C14Element(zoo.Expr):
+    tag: str = ""
+    attrs: tuple[zoo.Expr, ...] = ()
+    children: tuple[zoo.Expr, ...] = ()
+
+
+zoo.CHILD_FIELDS[C14Element] = [("attrs", True), ("children", True)]
+
+
 def opaque_value_cases(rng, n):
     """property values that are arbitrary objects (annotation Any) with identity equality, comparable and not: a copy holds
     *equal* values, i.e. for such objects the very same ones; replace() keeps the very same objects in the untouched fields"""
@@ -83,6 +93,27 @@ def _opaque_value_cases_one(rng, cfg_note):
         yield Case("directed:noncompare-hash-flag", None, None, True, "Holder(hnote=field(compare=False, hash=True)).replace(hnote=…)" + cfg_note,
                    oracle_fail=fh, sig="copy|directed|noncompare-hash-flag")
         del hx, hr
+        # a node class one of whose child FIELDS is called `children` (it shadows the library's `children` property): with
+        # that field empty and nodes in another child field, duplicate() still copies every node
+        for shape in ("attrs-only", "both", "nested"):
+            attrs = (zoo.Leaf(v=rng.randrange(50)), zoo.Un(zoo.Leaf(v=3)))
+            inner = C14Element(tag="i", attrs=attrs, children=())
+            el = {"attrs-only": inner, "both": C14Element(tag="b", attrs=(zoo.Leaf(v=1),), children=(inner,)),
+                  "nested": zoo.Un(inner)}[shape]
+            before = {id(x) for x in [el] + [c for c, *_ in zoo.positions(el)]}
+            dd1 = el.duplicate()
+            after = [dd1] + [c for c, *_ in zoo.positions(dd1)]
+            fe = None
+            if len(after) != len(before):
+                fe = f"the copy has {len(after)} positions, the original {len(before)}"
+            elif any(id(x) in before for x in after):
+                fe = "duplicate() of a node whose child field `children` is empty shares nodes with the original"
+            elif any(_REG.get(x.id) is not x for x in after):
+                fe = "a copied node is not registered"
+            yield Case("directed:field-named-children", None, None, True,
+                       f"Element(tag, attrs=(2 nodes), children=()) {shape}: duplicate()" + cfg_note, oracle_fail=fe,
+                       sig="copy|directed|field-named-children")
+            del attrs, inner, el, dd1, after
         # a node that was REPLACED by a successor which keeps its id (only a non-comparable property differs) is duplicated
         # afterwards, alone and as a child: the copy is a copy of THAT node (its own property values), not of the
         # node that owns the id now
